@@ -5,7 +5,8 @@
    l_cadd = std::complex<float>::operator+, l_PPs = sample i of ParallelPlatesCSR(n, f0, f_max, g) (Airy functions:
    the value is not translated, only the loop that stores it). *)
 From Coq Require Import List ZArith Bool.
-From Inovesa Require Import Base.FieldKit Model.Impedance Model.ImpKit.
+From Coq Require String.
+From Inovesa Require Import Base.FieldKit Model.Impedance Model.ImpKit Model.ImpPure.
 Import ListNotations.
 Local Open Scope F_scope.
 Local Open Scope bool_scope.
@@ -136,3 +137,36 @@ Definition makeImpedance_with (K : Fld) (E : Leaves K)
 
 Definition makeImpedance (K : Fld) (E : Leaves K) : Z -> K -> K -> K -> K -> bool -> K -> K -> K -> option (list (cpx K)) -> option (list (cpx K)) :=
   makeImpedance_with K E (ParallelPlatesCSR_ctor K E) (FreeSpaceCSR_ctor K E) (ResistiveWall_ctor K E) (CollimatorImpedance_ctor K E).
+
+(* Purity scan: every function definition of the impedance classes and of the factory, with every variable its
+   body declares (parameters, locals) or refers to (constants defined outside) and the lifetime of that variable.
+   A `Persistent` entry (static / thread_local local that is not a call-independent constant, non-const variable
+   defined outside the function, non-const static data member) is refused by the translator before this table is
+   written; Props/Properties_C16.v proves imp_functions_pure about the table. *)
+Import String.
+Local Open Scope string_scope.
+Definition imp_decls : list fn_decls := [
+  mk_fn "Impedance::data" [];
+  mk_fn "Impedance::impedance" [];
+  mk_fn "Impedance::operator[]" [("n", Automatic)];
+  mk_fn "Impedance::nFreqs" [];
+  mk_fn "Impedance::size" [];
+  mk_fn "Impedance::getRuler" [];
+  mk_fn "Impedance::<static members>" [("factor4Ohms", StaticConstant); ("Z0", StaticConstant)];
+  mk_fn "Impedance::~Impedance" [];
+  mk_fn "Impedance::Impedance" [("other", Automatic); ("axis", Automatic); ("z", Automatic); ("oclh", Automatic); ("f_max", Automatic); ("nfreqs", Automatic); ("datafile", Automatic)];
+  mk_fn "Impedance::operator=" [("other", Automatic)];
+  mk_fn "Impedance::operator+=" [("rhs", Automatic); ("nsum", Automatic); ("i", Automatic)];
+  mk_fn "Impedance::swap" [("other", Automatic)];
+  mk_fn "Impedance::readData" [("fname", Automatic); ("rv", Automatic); ("is", Automatic); ("lineno", Automatic); ("old_lineno", Automatic); ("real", Automatic); ("imag", Automatic)];
+  mk_fn "ConstImpedance::ConstImpedance" [("n", Automatic); ("f_max", Automatic); ("Z", Automatic); ("oclh", Automatic)];
+  mk_fn "ConstImpedance::__calcImpedance" [("n", Automatic); ("Z", Automatic); ("rv", Automatic)];
+  mk_fn "CollimatorImpedance::CollimatorImpedance" [("n", Automatic); ("f_max", Automatic); ("outer", Automatic); ("inner", Automatic); ("oclh", Automatic); ("Z0", StaticConstant)];
+  mk_fn "FreeSpaceCSR::FreeSpaceCSR" [("n", Automatic); ("f_rev", Automatic); ("f_max", Automatic); ("oclh", Automatic)];
+  mk_fn "FreeSpaceCSR::__calcImpedance" [("n", Automatic); ("f_rev", Automatic); ("f_max", Automatic); ("rv", Automatic); ("Z0", Automatic); ("delta", Automatic); ("i", Automatic); ("i", Automatic)];
+  mk_fn "ParallelPlatesCSR::ParallelPlatesCSR" [("nfreqs", Automatic); ("f0", Automatic); ("f_max", Automatic); ("g", Automatic); ("oclh", Automatic)];
+  mk_fn "ParallelPlatesCSR::__calcImpedance" [("nfreqs", Automatic); ("f0", Automatic); ("f_max", Automatic); ("g", Automatic); ("rv", Automatic); ("delta", Automatic); ("r_bend", Automatic); ("j", Automatic); ("i", Automatic); ("Z", Automatic); ("n", Automatic); ("m", Automatic); ("maxp", Automatic); ("b", Automatic); ("zinc", Automatic); ("p", Automatic); ("u", Automatic); ("c", StaticConstant); ("Z0", StaticConstant)];
+  mk_fn "ResistiveWall::ResistiveWall" [("n", Automatic); ("f0", Automatic); ("f_max", Automatic); ("L", Automatic); ("s", Automatic); ("xi", Automatic); ("b", Automatic); ("oclh", Automatic)];
+  mk_fn "ResistiveWall::__calcImpedance" [("n", Automatic); ("f0", Automatic); ("f_max", Automatic); ("L", Automatic); ("s", Automatic); ("xi", Automatic); ("b", Automatic); ("rv", Automatic); ("mu_r", Automatic); ("Z1", Automatic); ("delta", Automatic); ("i", Automatic); ("i", Automatic); ("Z0", StaticConstant); ("c", StaticConstant)];
+  mk_fn "makeImpedance" [("nfreqs", Automatic); ("oclh", Automatic); ("fmax", Automatic); ("R_bend", Automatic); ("frev", Automatic); ("gap", Automatic); ("use_csr", Automatic); ("s", Automatic); ("xi", Automatic); ("inner_coll_radius", Automatic); ("impedance_file", Automatic); ("f0", Automatic); ("rv", Automatic); ("impedance_changed", Automatic); ("radius", Automatic); ("c", StaticConstant)]
+].
